@@ -252,7 +252,7 @@ func sigsOK(h *types.Header, m int) bool {
 		}
 		ok := false
 		for j, k := range h.Bookkeepers {
-			if !used[j] && osig.Verify(k, hash[:], s) {
+			if !used[j] && safeVerify(k, hash[:], s) {
 				used[j] = true
 				ok = true
 				break
